@@ -211,6 +211,7 @@ for _pid, (_t, _x) in _ADD5.items():
 
 # round 14
 _ADD6 = {
+    'C07': ('effect (mutation) analysis of the POSCAR, dump-file and table writers with the system as protected parameter', 'Also decided: writing a file does not write into the system written.'),
     'C10': ('default-unit scenario of Atoms.model through a caller-supplied dictionary', ''),
     'C16': ('refusals of float()/int() on concrete strings raised like Python inside the interpreted parser', ''),
     'C14': ('centering tables of tools/miller in exact rationals (rule of C04/C16) on the same sources', 'Also decided: the conventional-to-primitive tables the surface basis goes through are the inverses of their partners for every conventional_setting.'),
